@@ -25,18 +25,38 @@ theorem expected_succ (w p : Int) (n : Nat) : expected w p (n + 1) = w :: expect
     have : ((i + 1 : Nat) : Int) = (i : Int) + 1 := by omega
     rw [this, Int.add_mul]; omega
 
-/-! ### alignment arithmetic (`calculateWindowEnd`, `firstTickTime`) -/
+/-! ### alignment arithmetic (`calculateWindowEnd`, `firstTickTime`)
+
+The three characterisations below are proved by case analysis whatever shape the translated function has (the Python
+source may be refactored without changing its behaviour); everything else only uses them. -/
+
+/-- Closes the leaf goals after the case distinctions on `align_to` and on "is the creation on the grid". -/
+macro "finish_leaf" : tactic =>
+  `(tactic| first
+      | rfl
+      | (simp_all; done)
+      | omega
+      | (simp_all <;> omega)
+      | (apply Prod.ext <;> simp_all <;> omega))
+
+macro "finish_window" : tactic =>
+  `(tactic| first
+      | finish_leaf
+      | ((repeat' split) <;> finish_leaf))
 
 theorem windowEnd_none (now p : Int) : calculateWindowEnd now p none = (now + p, 0) := by
-  simp [calculateWindowEnd]
+  unfold calculateWindowEnd
+  finish_window
 
 theorem windowEnd_some_aligned (now p a : Int) (h : (now - a) % p = 0) :
     calculateWindowEnd now p (some a) = (now + p, 0) := by
-  simp [calculateWindowEnd, h]
+  unfold calculateWindowEnd
+  finish_window
 
 theorem windowEnd_some_unaligned (now p a : Int) (h : (now - a) % p ≠ 0) :
     calculateWindowEnd now p (some a) = (now + p * 2 - (now - a) % p, p - (now - a) % p) := by
-  simp [calculateWindowEnd, h]
+  unfold calculateWindowEnd
+  finish_window
 
 theorem windowEnd_on_grid (now p a : Int) : ((calculateWindowEnd now p (some a)).1 - a) % p = 0 := by
   by_cases h : (now - a) % p = 0
